@@ -124,15 +124,17 @@ def r_update_admin(ctx, cfg):
                             ok = False
             ctx.ob("C12.R1", key, "non-admin-path-returns-Err", ok, "the non-admin path can return something other than Err", fn=f, sample="Err only")
         # R2: what is saved
-        rec = peel(a[3])
-        ok = rec[0] == "upd" and peel(rec[1])[0] == "ok" and peel(peel(rec[1])[1])[0] == "call" and peel(peel(rec[1])[1])[1] == "wasm::Wasm::contract_data"
+        # `data.admin = x; save(data)` or `save(ContractData { admin: x, ..data })`: the loaded record with only `admin` replaced
+        def is_loaded_cd(o):
+            o = peel(o)
+            return o[0] == "ok" and peel(o[1])[0] == "call" and peel(o[1])[1] == "wasm::Wasm::contract_data"
+        ch = q.record_update(a[3], is_loaded_cd)
+        ok = ch is not None and set(k for k in ch if not (isinstance(k, tuple) and k[0] == "&mut")) == {"admin"}
+        newv = [ch["admin"]] if ok else []
         if ok:
-            paths = {p for p, v in rec[2] if not (p and p[0] == "&mut")}
-            ok = paths == {("admin",)}
-            newv = [v for p, v in rec[2] if p == ("admin",)]
-            ok = ok and len(newv) == 1 and contains(newv[0], lambda x: x[0] == "param" and x[2] == "new_admin") and \
+            ok = contains(newv[0], lambda x: x[0] == "param" and x[2] == "new_admin") and \
                 not contains(newv[0], lambda x: x[0] == "param" and x[2] in ("sender",))
-        ctx.ob("C12.R2", key, "saves-loaded-record-with-only-admin-replaced", ok, "update_admin saves %s" % fmt(rec)[:200], fn=f, line=t["line"],
+        ctx.ob("C12.R2", key, "saves-loaded-record-with-only-admin-replaced", ok, "update_admin saves %s" % fmt(a[3])[:200], fn=f, line=t["line"],
                sample="contract_data with {admin: validated new_admin | None}")
         ctx.ob("C12.R2", key, "saved-under-looked-up-address", contains(addr, lambda x: x[0] == "call" and x[1].endswith("Api::addr_validate") and is_param(x[2][1], "contract_addr")),
                "record saved under %s" % fmt(addr)[:100], fn=f, sample="addr_validate(contract_addr)?")
@@ -171,11 +173,9 @@ def r_update_admin(ctx, cfg):
     for f2, bid2, t2 in q.all_calls(F, "wasm::WasmKeeper::save_contract"):
         if f2.key != key:
             continue
-        rec2 = P.call_args(f2, t2, bid2)[3]
-        while rec2[0] == "vp":
-            rec2 = rec2[2]
-        if rec2[0] == "upd":
-            nv = [v for p, v in rec2[2] if p == ("admin",)]
+        ch2 = q.record_update(P.call_args(f2, t2, bid2)[3], lambda o: peel(o)[0] == "ok" and peel(peel(o)[1])[0] == "call" and peel(peel(o)[1])[1] == "wasm::Wasm::contract_data")
+        if ch2 is not None and "admin" in ch2:
+            nv = [ch2["admin"]]
             ok = len(nv) == 1 and contains(nv[0], lambda x: x[0] == "call" and x[1].endswith("Api::addr_validate")) and not _unvalidated(nv[0])
     ctx.ob("C12.R2", key, "new-admin-validated", ok, "the new admin address is stored without passing through addr_validate", fn=f, sample="Some(api.addr_validate(&a)?) | None")
     # callers: UpdateAdmin passes Some(admin), ClearAdmin passes None, both with the message's contract_addr and the sender
@@ -233,11 +233,8 @@ def r_migrate(ctx, cfg):
                 bad += _writes_after(f, cf, fe)
             ctx.ob("C12.R1", key, "non-admin-migrate-writes-nothing", not bad, "the non-admin path reaches %s" % bad, fn=f, sample="no storage write")
     rec = peel(sa[3])
-    ok = rec[0] == "upd" and peel(rec[1])[0] == "ok" and peel(peel(rec[1])[1])[0] == "call" and peel(peel(rec[1])[1])[1] == "wasm::Wasm::contract_data"
-    if ok:
-        paths = {p for p, v in rec[2] if not (p and p[0] == "&mut")}
-        newv = [v for p, v in rec[2] if p == ("code_id",)]
-        ok = paths == {("code_id",)} and len(newv) == 1 and is_param_field(newv[0], "msg", "new_code_id")
+    chm = q.record_update(sa[3], lambda o: peel(o)[0] == "ok" and peel(peel(o)[1])[0] == "call" and peel(peel(o)[1])[1] == "wasm::Wasm::contract_data")
+    ok = chm is not None and set(k for k in chm if not (isinstance(k, tuple) and k[0] == "&mut")) == {"code_id"} and is_param_field(chm["code_id"], "msg", "new_code_id")
     ctx.ob("C12.R2", key, "saves-loaded-record-with-only-code_id-replaced", ok, "Migrate saves %s" % fmt(rec)[:200], fn=f, line=st["line"],
            sample="contract_data with {code_id: new_code_id}")
     ctx.ob("C12.R2", key, "saved-under-looked-up-address", contains(addr, lambda x: x[0] == "call" and x[1].endswith("Api::addr_validate") and
